@@ -62,6 +62,17 @@
 */
 #define CHUNKSIZE 65536 /* greater-than-page-size granularity seeking */
 #define READSIZE 2048 /* a smaller read size is needed for low-rate streaming. */
+#ifdef XIPH_VORBIS_VERIF
+/* verification hook (off by default): lets a simulator scale the seek
+   granularity and read size down so that small test streams still span
+   several chunks.  Shipped behaviour is unchanged without the define. */
+extern int xiph_vorbis_verif_chunksize;
+extern int xiph_vorbis_verif_readsize;
+#undef CHUNKSIZE
+#undef READSIZE
+#define CHUNKSIZE xiph_vorbis_verif_chunksize
+#define READSIZE xiph_vorbis_verif_readsize
+#endif
 
 static long _get_data(OggVorbis_File *vf){
   errno=0;
